@@ -356,16 +356,16 @@ theorem reachable_limits_positive (p : Params) (cs : List ParamChange) (h : gene
     unfold applyChange
     split
     · rename_i hacc
-      unfold changeAccepted at hacc
+      unfold changeAcceptedFor changeAccepted at hacc
       unfold genesisValid at h ⊢
       simp only [Bool.and_eq_true, decide_eq_true_eq] at h hacc ⊢
       refine ⟨⟨?_, ?_⟩, h.2⟩
       · cases hc : c.minValidators with
         | none => simpa using h.1.1
-        | some v => have := hacc.1.2; rw [hc] at this; simpa using this
+        | some v => have := hacc.1.1.2; rw [hc] at this; simpa using this
       · cases hc : c.maxValidators with
         | none => simpa using h.1.2
-        | some v => have := hacc.2; rw [hc] at this; simpa using this
+        | some v => have := hacc.1.2; rw [hc] at this; simpa using this
     · exact h
 
 /-! ## validator updates -/
